@@ -65,7 +65,10 @@ def feasible(v):
 
 
 def classify_helper(repo, f):
-    """-> ('COUNT'|'WORST', 'P'|'L') from the helper's effect summary, or raises Unknown."""
+    """-> ('COUNT'|'WORST', 'P'|'L', None) or ('BAD', sort, why) from the helper's effect summary; raises Unknown when the
+    helper is not a scatter-fold at all.  Shapes are normalised (shared sub-helpers, index functions, merged or split
+    first-or-max updates, `is None` / `== None`, early continue)."""
+    import itertools
     it = Interp(repo)
     effs, rv = it.run(f, {}, selfterm=lp.MODEL)
     if rv[0] != 'accum':
@@ -84,29 +87,69 @@ def classify_helper(repo, f):
     param = S(f.params[1])
     def notnone(b):
         return [NOT(CMP('Eq', b, NONE)), CMP('NotEq', b, NONE), NOT(CMP('Is', b, NONE)), CMP('IsNot', b, NONE)]
+    def split_guard(g, b):
+        conj = list(g[2]) if (g[0] == 'bool' and g[1] == 'and') else [g]
+        nn = [c for c in conj if c in notnone(b)]
+        rest = [c for c in conj if c not in notnone(b)]
+        return bool(nn), rest
     if init == C(0):
         ok = len(entries) == 1
         if ok:
             op, idx, val, ch = entries[0]
             b, g = ch[0]
-            ok = op == 'addidx' and val == C(1) and len(ch) == 1 and b[3] == param and idx == A(b, keyattr) and g in notnone(b)
+            has_nn, rest = split_guard(g, b)
+            ok = op == 'addidx' and val == C(1) and len(ch) == 1 and b[3] == param and idx == A(b, keyattr) and has_nn and not rest
         if not ok:
             return ('BAD', sort, 'count helper %s does not add 1 at the own %s of every non-None entry' % (f.name, keyattr))
         return ('COUNT', sort, None)
     if init == NONE:
-        if len(entries) != 2:
-            return ('BAD', sort, 'worst-rank helper %s is not a first-or-max update' % f.name)
-        ok = True
+        bad = ('BAD', sort, 'worst-rank helper %s does not keep the maximum rank_lecturer per %s (None when empty)' % (f.name, keyattr))
+        if not entries:
+            return bad
+        guards = []
         for op, idx, val, ch in entries:
+            if len(ch) != 1:
+                return bad
             b, g = ch[0]
-            conj = list(g[2]) if (g[0] == 'bool' and g[1] == 'and') else [g]
-            ok = ok and op == 'setidx' and idx == A(b, keyattr) and val == A(b, 'rank_lecturer') and b[3] == param and any(c in conj for c in notnone(b))
-        g1 = [c for c in (entries[0][3][0][1][2] if entries[0][3][0][1][0] == 'bool' else [entries[0][3][0][1]])]
-        g2 = [c for c in (entries[1][3][0][1][2] if entries[1][3][0][1][0] == 'bool' else [entries[1][3][0][1]])]
-        txt = ' '.join(show(c) for c in g1 + g2)
-        ok = ok and ('== None' in txt or 'is None' in txt) and ('>' in txt)
-        if not ok:
-            return ('BAD', sort, 'worst-rank helper %s does not keep the maximum rank_lecturer per %s (None when empty)' % (f.name, keyattr))
+            has_nn, rest = split_guard(g, b)
+            if not (op == 'setidx' and idx == A(b, keyattr) and val == A(b, 'rank_lecturer') and b[3] == param and has_nn):
+                return bad
+            guards.append((AND(*rest) if rest else TRUE, b))
+        # union of the update conditions must be  (slot is None) or (rank > slot), evaluated in order (elif chains arrive as
+        # mutually exclusive guards; `not (slot is None)` conjuncts are evaluated under the valuation)
+        def ev(t, b, N, G):
+            slot_forms = lambda x: x[0] == 'idx' and x[1][0] in ('carried', 'prefix') and x[2] == A(b, keyattr)
+            if t == TRUE: return True
+            if t == FALSE: return False
+            if t[0] == 'not':
+                v = ev(t[1], b, N, G); return None if v is None else not v
+            if t[0] == 'bool':
+                vs = [ev(x, b, N, G) for x in t[2]]
+                if t[1] == 'and':
+                    if any(v is False for v in vs): return False
+                    return None if any(v is None for v in vs) else True
+                if any(v is True for v in vs): return True
+                return None if any(v is None for v in vs) else False
+            if t[0] == 'cmp':
+                a_, c_ = t[2], t[3]
+                if t[1] in ('Eq', 'Is', 'NotEq', 'IsNot') and ((slot_forms(a_) and c_ == NONE) or (slot_forms(c_) and a_ == NONE)):
+                    return N if t[1] in ('Eq', 'Is') else not N
+                rk = A(b, 'rank_lecturer')
+                if (t[1] == 'Gt' and a_ == rk and slot_forms(c_)) or (t[1] == 'Lt' and slot_forms(a_) and c_ == rk):
+                    return None if N else G
+                if (t[1] == 'GtE' and a_ == rk and slot_forms(c_)) or (t[1] == 'LtE' and slot_forms(a_) and c_ == rk):
+                    return None if N else 'GE'
+            return 'UNK'
+        for N, G in ((True, False), (False, True), (False, False)):
+            vals = [ev(g, b, N, G) for g, b in guards]
+            if any(v in ('UNK', 'GE') for v in vals):
+                if any(v == 'GE' for v in vals):
+                    continue      # >= instead of > keeps the same maximum
+                raise Unknown('worst-rank helper %s: update condition not recognised' % f.name)
+            got = any(v is True for v in vals)
+            want = N or G
+            if got != want:
+                return bad
         return ('WORST', sort, None)
     raise Unknown('helper %s: unknown initial slot value %s' % (f.name, show(init)))
 
@@ -121,6 +164,7 @@ def run(rep, repo, tier):
     param = f.params[1]
     # ---- structure: helper calls, row loop, pair loop ------------------------------------------------------
     kinds = {}
+    helper_names = set()
     rowloop = None
     for s in fn.body:
         if isinstance(s, ast.Assign) and len(s.targets) == 1 and isinstance(s.targets[0], ast.Name) and isinstance(s.value, ast.Call) \
@@ -140,6 +184,7 @@ def run(rep, repo, tier):
             rep.check(argok, 'C06.R2', f.where, '%s is computed from the assignment being checked' % s.targets[0].id, got=ast.unparse(s.value), construct='helper argument %s' % ast.unparse(s.value))
             rep.ok('C06.R2', h.where, '%s = %s per %s' % (h.name, 'assignment count (None skipped)' if k[0] == 'COUNT' else 'worst (max) lecturer rank, None when empty', 'project' if k[1] == 'P' else 'lecturer'))
             kinds[s.targets[0].id] = (k[0], k[1])
+            helper_names.add(h.name)
         elif isinstance(s, ast.For):
             rowloop = s
     need = {('COUNT', 'P'), ('COUNT', 'L'), ('WORST', 'P'), ('WORST', 'L')}
@@ -189,6 +234,7 @@ def run(rep, repo, tier):
                 return ('array', 'UQ', UQ[n.attr])
             return NOATOM
         fe = FiniteEval(atom)
+        fe.resolver = lambda name: (repo.classes['Model'][name].node if name in repo.classes['Model'] and name not in helper_names else None)
 
         def own(e):
             """('elem', kind, sort, index value) with the pair's own index of that sort?"""
@@ -283,7 +329,7 @@ def run(rep, repo, tier):
     mism, errs, unknown = [], [], None
     for v in vals:
         fe = make_eval(v)
-        env = {}
+        env = {'self': ('obj', 'self')}
         verdict = None
         try:
             fe.run(rowpre, env)
@@ -333,57 +379,82 @@ def run(rep, repo, tier):
     check_caller(rep, repo)
 
 
+def flatten_str(t):
+    """String-building term -> list of parts (constants and holes)."""
+    if t[0] == 'bin' and t[1] == 'Add':
+        return flatten_str(t[2]) + flatten_str(t[3])
+    if t[0] == 'fstr':
+        out = []
+        for x in t[1]:
+            out += flatten_str(x)
+        return out
+    return [t]
+
+
 def check_caller(rep, repo):
     f = repo.method('Model', 'get_results')
-    calls = [n for n in ast.walk(f.node) if isinstance(n, ast.Call) and isinstance(n.func, ast.Attribute) and n.func.attr == 'check_stability']
+    cs = repo.method('Model', 'check_stability')
+    it = Interp(repo)
+    try:
+        effs, rv = it.run(f, {p_: S(p_) for p_ in f.params[1:]}, selfterm=lp.MODEL)
+    except Unknown as u:
+        rep.inconclusive('C06.R4', f.where, 'get_results is inside the interpreted fragment', got=str(u))
+        return
+    calls = [(e, c) for e, c in iter_effects(effs) if e.kind == 'call' and e.target is cs]
     rep.check(len(calls) == 1, 'C06.R4', f.where, 'get_results calls check_stability once', got='%d calls' % len(calls), construct='check_stability call count')
     if len(calls) != 1:
         return
-    c = calls[0]
-    # argument is the per-student list (with None)
-    arg = c.args[0] if c.args else None
-    src_ok = False
-    if isinstance(arg, ast.Name):
-        for n in ast.walk(f.node):
-            if isinstance(n, ast.Assign) and len(n.targets) == 1 and isinstance(n.targets[0], ast.Name) and n.targets[0].id == arg.id and isinstance(n.value, ast.Call) \
-                    and isinstance(n.value.func, ast.Attribute) and n.value.func.attr == '_get_pair_assignments_with_none':
-                src_ok = True
-    elif isinstance(arg, ast.Call) and isinstance(arg.func, ast.Attribute) and arg.func.attr == '_get_pair_assignments_with_none':
-        src_ok = True
-    rep.check(src_ok, 'C06.R4', f.where, 'the checker is given the per-student assignment list (one entry per student, None when unassigned)', got=ast.unparse(arg) if arg is not None else None,
-              want='self._get_pair_assignments_with_none()', construct='check_stability argument')
-    # printed as str(...) after the label, under `if stable_correctness`
-    parents = {}
-    for p in ast.walk(f.node):
-        for ch in ast.iter_child_nodes(p):
-            parents[ch] = p
-    cur, in_str, label, guard = c, False, False, False
-    while cur in parents:
-        par = parents[cur]
-        if isinstance(par, ast.Call) and isinstance(par.func, ast.Name) and par.func.id == 'str':
-            in_str = True
-        if isinstance(par, ast.JoinedStr):
-            in_str = True
-        if isinstance(par, (ast.AugAssign, ast.Assign, ast.Expr)):
-            label = any(isinstance(x, ast.Constant) and isinstance(x.value, str) and 'stability_correct' in x.value for x in ast.walk(par))
-        if isinstance(par, ast.If) and ast.unparse(par.test) in ('stable_correctness', 'stable_correctness == True', 'stable_correctness is True'):
-            guard = True
-        cur = par
-    rep.check(in_str and label, 'C06.R4', f.where, "the value is printed unchanged after the label 'stability_correct: '", got='str()=%s label=%s' % (in_str, label), construct='stability_correct formatting')
-    rep.check(guard, 'C06.R4', f.where, 'stability_correct is printed exactly when stability was requested', got='guarded=%s' % guard, construct='stability_correct guard')
-    # with_none helper: one entry per student
-    h = repo.method('Model', '_get_pair_assignments_with_none')
-    it = Interp(repo)
+    call, cctx = calls[0]
+    ret = call.ret
+    guards = [(c.cond if br else NOT(c.cond)) for c, br in cctx if c.kind == 'if']
+    flat = []
+    for g in guards:
+        flat += list(g[2]) if (g[0] == 'bool' and g[1] == 'and') else [g]
+    stab = S(f.params[2]) if len(f.params) > 2 else S('stable_correctness')
+    rep.check(any(g in (stab, CMP('Eq', stab, TRUE), CMP('Is', stab, TRUE)) for g in flat), 'C06.R4', f.where,
+              'the stability check runs, and stability_correct is printed, exactly when stability was requested', got=[show(g)[:60] for g in flat],
+              want='if stable_correctness:', construct='stability_correct guard')
+    # argument: the per-student list with None
+    wn = repo.method('Model', '_get_pair_assignments_with_none')
+    wn_calls = [e for e, c in iter_effects(effs) if e.kind == 'call' and e.target is wn]
+    ok_arg = len(call.args) == 1 and any(call.args[0] == e.ret for e in wn_calls)
+    rep.check(ok_arg, 'C06.R4', f.where, 'the checker is given the per-student assignment list (one entry per student, None when unassigned)',
+              got=show(call.args[0])[:120] if call.args else None, want='self._get_pair_assignments_with_none()', construct='check_stability argument')
+    # printed right after the label
+    found = False
+    def scan(t):
+        nonlocal found
+        for x in walk(t):
+            if x[0] in ('bin', 'fstr'):
+                parts = flatten_str(x)
+                for i_, p_ in enumerate(parts[:-1]):
+                    if p_[0] == 'const' and isinstance(p_[1], str) and p_[1].endswith('stability_correct: '):
+                        nxt = parts[i_ + 1]
+                        if nxt == ret or nxt == CALL(S('str'), [ret]):
+                            found = True
+    for e, c in iter_effects(effs):
+        for k_, v_ in e.__dict__.items():
+            if isinstance(v_, tuple) and v_ and isinstance(v_[0], str):
+                scan(v_)
+    scan(rv)
+    rep.check(found, 'C06.R4', f.where, "the value returned by check_stability is printed unchanged right after the label 'stability_correct: '",
+              got='label followed by the returned value: %s' % found, want="'stability_correct: ' + str(self.check_stability(..))", construct='stability_correct formatting')
+    # with_none helper: one entry per row of pairs
     try:
-        effs, rv = it.run(h, {}, selfterm=lp.MODEL)
-        apps = [(e, c) for e, c in iter_effects(effs) if e.kind == 'acc' and e.op == 'append']
-        nones = [(e, c) for e, c in apps if e.value == NONE]
-        ok = len(apps) == 2 and len(nones) == 1
-        if ok:
-            e, ctx = nones[0]
-            fors = [c for c, _ in ctx if c.kind == 'for']
-            ok = len(fors) == 1 and fors[0].binder[3] == A(lp.MODEL, 'pairs')
-        rep.check(ok, 'C06.R4', h.where, 'the per-student list has one entry per row of pairs: the assigned pair, or None when no variable of the row is set',
-                  got=[show(e.value) for e, _ in apps], construct='with_none schema')
+        effs2, rv2 = Interp(repo).run(wn, {}, selfterm=lp.MODEL)
     except Unknown as u:
-        rep.inconclusive('C06.R4', h.where, 'with_none helper is inside the interpreted fragment', got=str(u))
+        rep.inconclusive('C06.R4', wn.where, 'with_none helper is inside the interpreted fragment', got=str(u))
+        return
+    ents = []
+    if rv2[0] == 'accum':
+        ents = list(rv2[2])
+    elif rv2[0] in ('cat', 'comp'):
+        ents = [('append', NONE, c_[2], c_[1]) for c_ in ([rv2] if rv2[0] == 'comp' else [p_ for p_ in rv2[1] if p_[0] == 'comp'])]
+    rows_ok = bool(ents) and all(ch and ch[0][0][3] == A(lp.MODEL, 'pairs') for _, _, _, ch in ents)
+    nones = [en for en in ents if en[2] == NONE]
+    others = [en for en in ents if en[2] != NONE]
+    uses_var = any(contains(('x', en[2]) + tuple(g for _, g in en[3]), lambda x: x[0] == 'attr' and x[2] == 'varValue') for en in others)
+    none_neg = len(nones) == 1 and contains(nones[0][3][-1][1], lambda x: x[0] == 'not')
+    rep.check(rows_ok and len(nones) == 1 and others and uses_var and none_neg, 'C06.R4', wn.where,
+              'the per-student list has one entry per row of pairs: the pair whose variable is set, or None when no variable of the row is set',
+              got=[(op, show(v)[:50]) for op, _, v, _ in ents], want='per row: selected pair(s) by varValue, else None', construct='with_none schema')
